@@ -19,7 +19,9 @@ MANIFEST = {
             "generated slots is compared (object-field order ignored) with the model's, the model reader is compared with "
             "serde_json::from_str on that text and on a stream of malformed/variant documents (hex case, prefix, width, unknown / "
             "duplicate / missing / reordered keys, array form, wrong tags, number kinds), and the property itself (real round trip "
-            "equal incl. payloads, 66-character 0x word, index exact) is evaluated on the implementation's own output.",
+            "equal incl. payloads, 66-character 0x word, index exact) is evaluated on the implementation's own output; every written "
+            "slot and index is read back through all four serde_json entry points (from_str, from_slice, from_reader, from_value) "
+            "and each must return the equal entry.",
     "note": "serde, serde_derive, serde_json (incl. its text layer: escaping, number tokens, whitespace), hex::encode and "
             "ethnum::U256::from_str_hex are MODELLED, NOT VERIFIED; the model is a JSON-value-level description of their behaviour "
             "pinned by the correspondence streams. Trusted: Coq kernel + vm_compute; tools/tr_json.py (attribute parser; strict: "
